@@ -63,6 +63,7 @@ GENERATORS = [
     ("lex_table", "gen/lex_table.py", ["coq/Gen/LexTable.v", "coq/Gen/lextable.json"]),
     ("schema", "gen/schema.py", ["coq/Gen/Schema.v"]),
     ("static", "gen/static.py", ["coq/Gen/Static.v"]),
+    ("flow", "gen/flow.py", ["coq/Gen/Flow.v"]),
 ]
 
 
